@@ -72,6 +72,8 @@ where
         .visit_primary_expression(&a.array)
         .unwrap()
         .0?;
+        #[cfg(feature = "verif")]
+        crate::verif::pre("produce_val.visit_array_pop_expr", back.is_some());
         Ok(ProduceValOutput(unsafe { back.unchecked_unwrap() }))
     }
 
